@@ -489,6 +489,94 @@ fn check_names(acc: &mut Acc, tier: Tier) -> u64 {
     names.len() as u64
 }
 
+struct MixCtx {
+    builtins_expr: Expr,
+    mix_facts: Value,
+    baseline: Option<Value>,
+}
+
+impl MixCtx {
+    fn new() -> MixCtx {
+        // built-ins applied to the arguments the function under test also receives: neither side
+        // may see the other's results
+        let builtins_text = "[datetime(s), date_time(s), duration(i5), int(n), float(n), dec(n), uppercase(s), lowercase(s), trim(s), to_upper(s), to_lower(s), year(datetime(s)), month(datetime(s)), is_some(s), is_none(s), round(f1.5), floor(f1.5), fract(f1.5), week(i5), day(i5), hour(i5), minute(i5), second(i5), s contains \"T\", n in [n]]";
+        let mix_facts = Value::Map([("s".to_string(), Value::String("2015-07-30T03:26:13Z".into())), ("n".to_string(), Value::String("5".into()))].into_iter().collect());
+        let builtins_expr = Expr::parse(builtins_text).expect("builtins text parses");
+        let baseline: Option<Value> = block_on(builtins_expr.evaluate(&mix_facts)).ok().and_then(|r| r.ok());
+        MixCtx { builtins_expr, mix_facts, baseline }
+    }
+}
+
+/// one candidate name: refused exactly when reserved / ill-formed; when accepted and writable in
+/// rule text, `name(i0)` reaches it; with `mixed`, also evaluated next to all built-ins
+fn check_word(name: &String, mixed: bool, ctx: &MixCtx, acc: &mut Acc) {
+    let leaked: &'static str = Box::leak(name.clone().into_boxed_str());
+    acc.count("executions", 1);
+    acc.count("words_checked", 1);
+    let want = name_ok(name);
+    let r = catch(|| ruleset().with_function(func(leaked, 1)).map(|_| ()));
+    let accepted = matches!(r, Ok(Ok(())));
+    let problem = match &r {
+        Err(p) => Some(format!("panicked: {p}")),
+        Ok(Ok(())) if !want => Some("accepted, but it is reserved".to_string()),
+        Ok(Err(e)) if want => Some(format!("refused ({e}), but it is a well-formed, unreserved identifier")),
+        _ => None,
+    };
+    if let Some(d) = problem {
+        acc.violation(Violation { sig: format!("name/{name:?}/with_function"), what: format!("with_function({name:?}): {d}"), case: json!({"kind": "name", "name": name, "via": "with_function"}), size: name.len() });
+    }
+    if accepted && crate::spec::rv::is_ident(name) {
+        let seen = catch(|| {
+            let e = Expr::parse(&format!("{name}(i0)")).map_err(|e| e.to_string())?;
+            let rs = ruleset().with_rule(Rule::new("call", BTreeMap::new(), e)).and_then(|b| b.with_function(func_nc(leaked, 4242))).map_err(|e| e.to_string())?.build();
+            let out = block_on(rs.evaluate_value(&Value::None))?.map_err(|e| e.to_string())?;
+            Ok::<_, String>(out.into_iter().next().map(|o| o.value.map(|v| RV::from_value(&v)).map_err(|e| e.to_string())))
+        });
+        acc.count("names_called_from_rule_text", 1);
+        match seen {
+            Ok(Ok(Some(Ok(RV::Int(4242))))) => {}
+            other => acc.violation(Violation {
+                sig: format!("name-not-invocable-from-text/{name}"),
+                what: format!("function {name:?} is accepted by the builder, but the rule text `{name}(i0)` does not reach it: {other:?}"),
+                case: json!({"kind": "name", "name": name, "via": "text"}),
+                size: name.len(),
+            }),
+        }
+    }
+    if accepted && mixed && crate::spec::rv::is_ident(name) {
+        let seen = catch(|| {
+            let h: Handler = Arc::new(|_, p| (Ok(Value::Vec(vec![Value::Int(4242), p])), 0));
+            let call = Expr::parse(&format!("[{name}(s), {name}(i5), {name}(n), {name}(f1.5), {name}(datetime(s))]")).map_err(|e| e.to_string())?;
+            let rs = ruleset()
+                .with_rule(Rule::new("before", BTreeMap::new(), ctx.builtins_expr.clone()))
+                .and_then(|b| b.with_rule(Rule::new("call", BTreeMap::new(), call)))
+                .and_then(|b| b.with_rule(Rule::new("after", BTreeMap::new(), ctx.builtins_expr.clone())))
+                .and_then(|b| b.with_function(probe(leaked, true, &h)))
+                .map_err(|e| e.to_string())?
+                .build();
+            let out = block_on(rs.evaluate_value(&ctx.mix_facts))?.map_err(|e| e.to_string())?;
+            Ok::<_, String>(out.into_iter().map(|o| o.value.map_err(|e| e.to_string())).collect::<Vec<_>>())
+        });
+        acc.count("names_mixed_with_builtins", 1);
+        let ok = match (&seen, &ctx.baseline) {
+            (Ok(Ok(v)), Some(b)) if v.len() == 3 => {
+                let call_ok = matches!(&v[1], Ok(Value::Vec(items)) if items.len() == 5 && items.iter().all(|i| matches!(i, Value::Vec(p) if p.first() == Some(&Value::Int(4242)))));
+                v[0].as_ref().ok() == Some(b) && v[2].as_ref().ok() == Some(b) && call_ok
+            }
+            _ => false,
+        };
+        if !ok {
+            acc.violation(Violation {
+                sig: format!("name-mixes-with-builtins/{name}"),
+                what: format!("a cacheable function named {name:?} evaluated next to the built-ins on the same arguments: outcomes {seen:?} (the built-ins alone give {:?})", ctx.baseline),
+                case: json!({"kind": "name", "name": name, "via": "mixed"}),
+                size: name.len(),
+            });
+        }
+    }
+    acc.outcome(format!("word:{}", if want { "accept" } else { "refuse" }));
+}
+
 /// words a grammar could plausibly learn as a new operator, built-in or literal
 const PLAUSIBLE_WORDS: [&str; 191] = [
     "not", "xor", "mod", "div", "nor", "nand", "null", "nil", "is", "as", "let", "fn", "def", "var", "len", "abs", "min", "max", "sum", "avg", "any", "all", "map", "filter", "like", "matches", "between", "exists",
@@ -528,48 +616,30 @@ fn word_sweep(tier: Tier) -> (Acc, u64) {
         words.push(format!("is_{w}"));
         words.push(format!("to_{w}"));
     }
+    // names derived from the built-ins (what an internal memo or helper would be called)
+    let mut derived: Vec<String> = Vec::new();
+    for k in RESERVED.iter().copied().chain(["date", "time", "string", "str", "bool", "list", "map", "index", "symbol", "value", "expr", "cast", "parse"]) {
+        for pre in ["to_", "as_", "from_", "parse_", "is_", "_", "get_", "eval_", "cast_", "builtin_", "fn_", "reval_", "__", "do_", "try_"] {
+            derived.push(format!("{pre}{k}"));
+        }
+        for suf in ["_", "_of", "_value", "_cast", "2", "_fn", "_impl", "_from", "_to", "s"] {
+            derived.push(format!("{k}{suf}"));
+        }
+    }
+    derived.sort();
+    derived.dedup();
+    let derived_set: std::collections::BTreeSet<String> = derived.iter().cloned().chain(PLAUSIBLE_WORDS.iter().map(|w| w.to_string())).collect();
+    words.extend(derived);
     words.sort();
     words.dedup();
     let n = words.len() as u64;
+    let ctx = MixCtx::new();
     let acc = words
         .par_chunks(512)
         .map(|chunk| {
             let mut acc = Acc::new();
             for name in chunk {
-                let leaked: &'static str = Box::leak(name.clone().into_boxed_str());
-                acc.count("executions", 1);
-                acc.count("words_checked", 1);
-                let want = name_ok(name);
-                let r = catch(|| ruleset().with_function(func(leaked, 1)).map(|_| ()));
-                let accepted = matches!(r, Ok(Ok(())));
-                let problem = match &r {
-                    Err(p) => Some(format!("panicked: {p}")),
-                    Ok(Ok(())) if !want => Some("accepted, but it is reserved".to_string()),
-                    Ok(Err(e)) if want => Some(format!("refused ({e}), but it is a well-formed, unreserved identifier")),
-                    _ => None,
-                };
-                if let Some(d) = problem {
-                    acc.violation(Violation { sig: format!("name/{name:?}/with_function"), what: format!("with_function({name:?}): {d}"), case: json!({"kind": "name", "name": name, "via": "with_function"}), size: name.len() });
-                }
-                if accepted {
-                    let seen = catch(|| {
-                        let e = Expr::parse(&format!("{name}(i0)")).map_err(|e| e.to_string())?;
-                        let rs = ruleset().with_rule(Rule::new("call", BTreeMap::new(), e)).and_then(|b| b.with_function(func_nc(leaked, 4242))).map_err(|e| e.to_string())?.build();
-                        let out = block_on(rs.evaluate_value(&Value::None))?.map_err(|e| e.to_string())?;
-                        Ok::<_, String>(out.into_iter().next().map(|o| o.value.map(|v| RV::from_value(&v)).map_err(|e| e.to_string())))
-                    });
-                    acc.count("names_called_from_rule_text", 1);
-                    match seen {
-                        Ok(Ok(Some(Ok(RV::Int(4242))))) => {}
-                        other => acc.violation(Violation {
-                            sig: format!("name-not-invocable-from-text/{name}"),
-                            what: format!("function {name:?} is accepted by the builder, but the rule text `{name}(i0)` does not reach it: {other:?}"),
-                            case: json!({"kind": "name", "name": name, "via": "text"}),
-                            size: name.len(),
-                        }),
-                    }
-                }
-                acc.outcome(format!("word:{}", if want { "accept" } else { "refuse" }));
+                check_word(name, derived_set.contains(name), &ctx, &mut acc);
             }
             acc
         })
@@ -768,6 +838,20 @@ pub fn replay(case: &serde_json::Value) -> i32 {
                     println!("{m}");
                     2
                 }
+            }
+        }
+        Some("name") if matches!(case.get("via").and_then(|v| v.as_str()), Some("text") | Some("mixed")) => {
+            let name = case.get("name").and_then(|n| n.as_str()).unwrap_or("").to_string();
+            let mut acc = Acc::new();
+            check_word(&name, true, &MixCtx::new(), &mut acc);
+            if acc.violations.is_empty() {
+                println!("name {name:?}: refused-or-invocable holds, also next to the built-ins");
+                0
+            } else {
+                for v in acc.violations.values() {
+                    println!("verdict: VIOLATED — {}", v.what);
+                }
+                1
             }
         }
         Some("name") => {
